@@ -89,7 +89,12 @@ def Dop.markerFree : Dop → Bool
   | .dynLenField _ _ _ cd item => cd.markerFree && item.markerFree
   | .endMarkerField .. => false
   | .eopField _ _ item => item.markerFree
+  | .mux _ _ _ sd cases dflt => sd.markerFree && casesMarkerFree cases &&
+      (match dflt with | some (_, some d) => d.markerFree | _ => true)
   | .unsupported => true
+def casesMarkerFree : List MuxCaseD → Bool
+  | [] => true
+  | .mk _ _ _ st :: cs => (match st with | some d => d.markerFree | none => true) && casesMarkerFree cs
 def Param.markerFree : Param → Bool
   | .mk _ _ _ k => k.markerFree
 def PKind.markerFree : PKind → Bool
@@ -99,6 +104,51 @@ def paramsMarkerFree : List Param → Bool
   | [] => true
   | p :: ps => p.markerFree && paramsMarkerFree ps
 end
+
+theorem casesMarkerFree_cons (n : String) (lo up : Int) (st : Option Dop) (cs : List MuxCaseD) :
+    casesMarkerFree (.mk n lo up st :: cs) =
+      ((match st with | some d => d.markerFree | none => true) && casesMarkerFree cs) := by
+  cases st <;> rfl
+
+theorem caseOfKey_markerFree (key : Int) (cs : List MuxCaseD) (h : casesMarkerFree cs = true) (c : MuxCaseD)
+    (hc : caseOfKey key cs = some c) : ∀ d, c.struct = some d → d.markerFree = true := by
+  induction cs with
+  | nil => simp [caseOfKey] at hc
+  | cons x xs ih =>
+    obtain ⟨n, lo, up, st⟩ := x
+    rw [casesMarkerFree_cons, Bool.and_eq_true] at h
+    unfold caseOfKey at hc
+    by_cases hk : (MuxCaseD.mk n lo up st).lower ≤ key ∧ key ≤ (MuxCaseD.mk n lo up st).upper
+    · rw [if_pos hk] at hc
+      injection hc with hc
+      subst hc
+      intro d hd
+      have : st = some d := hd
+      subst this
+      exact h.1
+    · rw [if_neg hk] at hc
+      exact ih h.2 hc
+
+theorem markerFree_mux (bp sbp : Nat) (sbit : Option Nat) (sd : Dop) (cases : List MuxCaseD) (dflt : Option (String × Option Dop)) :
+    (Dop.mux bp sbp sbit sd cases dflt).markerFree =
+      (sd.markerFree && casesMarkerFree cases && (match dflt with | some (_, some d) => d.markerFree | _ => true)) := by
+  rcases dflt with _ | ⟨n, _ | d⟩ <;> rfl
+
+/-- the structure of the case the decoder selects is marker free -/
+theorem selCase_markerFree (cases : List MuxCaseD) (dflt : Option (String × Option Dop)) (hc : casesMarkerFree cases = true)
+    (hd : (match dflt with | some (_, some d) => d.markerFree | _ => true) = true) (key : Int) (name : String) (d : Dop)
+    (h : (match caseOfKey key cases with | some c => some (c.name, c.struct) | none => dflt) = some (name, some d)) :
+    d.markerFree = true := by
+  cases hk : caseOfKey key cases with
+  | some c =>
+    rw [hk] at h
+    simp only [Option.some.injEq, Prod.mk.injEq] at h
+    exact caseOfKey_markerFree key cases hc c hk d h.2
+  | none =>
+    rw [hk] at h
+    simp only at h
+    subst h
+    simpa using hd
 
 theorem sim_decode_all (fuel : Nat) :
     (∀ d, d.markerFree = true → Sim (decodeDop fuel d)) ∧
@@ -122,7 +172,19 @@ theorem sim_decode_all (fuel : Nat) :
     obtain ⟨ihDop, ihStatic, ihN, ihEnd, ihParam, ihParams, ihComp⟩ := ih
     refine ⟨?_, ?_, ?_, ?_, ?_, ?_, ?_⟩
     · intro d hd
-      cases d <;> unfold decodeDop <;> simp only [Dop.markerFree, Bool.and_eq_true, Bool.false_eq_true] at hd <;>
+      cases d with
+      | mux bp sbp sbit sd cases dflt =>
+        rw [markerFree_mux, Bool.and_eq_true, Bool.and_eq_true] at hd
+        obtain ⟨⟨hsd, hcs⟩, hdf⟩ := hd
+        unfold decodeDop
+        repeat (first
+          | exact ihDop _ hsd
+          | exact ihDop _ (caseOfKey_markerFree _ _ hcs _ (by assumption) _ (by assumption))
+          | exact ihDop _ (by simp_all)
+          | sim_step | split | dsimp only
+          | (simp only [Nat.succ_eq_add_one, Nat.add_right_cancel_iff] at *; subst_vars))
+      | _ =>
+        unfold decodeDop <;> simp only [Dop.markerFree, Bool.and_eq_true, Bool.false_eq_true] at hd <;>
         repeat (first
           | exact ihDop _ (by simp_all) | exact ihStatic _ _ _ (by simp_all) | exact ihN _ _ (by simp_all)
           | exact ihEnd _ (by simp_all) | exact ihComp _ (by simp_all)
